@@ -10,6 +10,10 @@ Local Open Scope N_scope.
 (* `{}` on a String argument *)
 Definition fmt_str (s : list N) : list N := s.
 
+(* `s.replace([c1, c2, …], to)`: every character of s that is one of `pat` is replaced by the text `to` *)
+Definition str_replace_chars (pat to s : list N) : list N :=
+  flat_map (fun c => if existsb (N.eqb c) pat then to else [c]) s.
+
 (* digits of n in the given base, most significant first, "0" for 0.  fuel = bit length + 1 always suffices. *)
 Fixpoint digits_aux (base : N) (digit : N -> N) (fuel : nat) (n : N) (acc : list N) : list N :=
   match fuel with
